@@ -158,6 +158,33 @@ def check_cfg(F, R, cfg):
             if len(els) == 1:
                 import C13
                 src = C13.loop_iter_source(fv, expr_of(fv, els[0][1]["args"][1], 40))
+            elif not els:
+                # `iter.try_for_each(|byte| tup.serialize_element(byte))`: the element call lives in a closure; the source is the iterator it is applied to
+                fe_ = fv.find_calls(r"Iterator>::(try_for_each|for_each)(::<.*>)?$|Iterator::(try_for_each|for_each)(::<.*>)?$")
+                if len(fe_) == 1:
+                    ce = ex.strip(expr_of(fv, fe_[0][1]["args"][1]))
+                    ck = ce[1][1] if ce[0] == "agg" and ce[1][0] == "closure" else None
+                    cf = F.fns.get(ck) if ck else None
+                    if cf and "mir" in cf:
+                        cv = view(F, cf)
+                        ce_ = cv.find_calls(r"SerializeTuple>::serialize_element")
+                        if len(ce_) == 1 and root(cv, ce_[0][1]["args"][1])[:2] == ("arg", 2):
+                            src = ex.strip(expr_of(fv, fe_[0][1]["args"][0], 40))
+                            # `.iter()` / `into_iter()` of the byte container: the container is the source
+                            for _ in range(4):
+                                if isinstance(src, tuple) and src[0] == "local":
+                                    # the iterator variable (taken by &mut): its single definition
+                                    ds_ = [d for d in fv.defs.get(src[1], []) if not d.via_mutref]
+                                    if len(ds_) == 1 and ds_[0].kind == "call":
+                                        src = ("call", cname(ds_[0].term), [expr_of(fv, a_, 40) for a_ in ds_[0].term["args"]])
+                                    elif len(ds_) == 1 and ds_[0].kind == "assign" and ds_[0].rv[0] == "use":
+                                        src = ex.strip(expr_of(fv, ds_[0].rv[1], 40))
+                                    else:
+                                        break
+                                if ex.is_call(src, r"::iter$|IntoIterator>::into_iter$|Iterator>::by_ref$"):
+                                    src = ex.strip(ex.call_args(src)[0])
+                                else:
+                                    break
             good, want = canonical_source(ty, src)
             good = good and tuple_n[ty] == 32
             ser_ok[ty] = good
